@@ -292,7 +292,8 @@ DOC = {
     "time_format": {"used": "writer:ttml", "valid": ["frames", "clock_time", "clock_time_with_frames"],
                     "invalid": [("enum", "smpte"), ("enum", "FRAMES"), ("type", 5), ("type", True)], "default": None},
     "fps": {"used": "writer:ttml", "valid": ["25/1", "30/1", "24/1", "30000/1001", "50/1"],
-            "invalid": [("syntax", "25"), ("syntax", "a/b"), ("syntax", "25/0"), ("syntax", "25/1/1"), ("type", 25), ("type", True)], "default": None},
+            "invalid": [("syntax", "25"), ("syntax", "a/b"), ("syntax", "25/0"), ("syntax", "25/1/1"), ("type", 25), ("type", True),
+                        ("range", "0/1"), ("range", "1/3"), ("range", "-25/1"), ("range", "1/2")], "default": None},
   },
   "stl_reader": {
     "disable_fill_line_gap": {"used": "reader:stl", "valid": _BOOL_VALID, "invalid": _BOOL_INVALID, "default": False},
